@@ -87,7 +87,21 @@ def _print_Piecewise(
         else:
             return printer._print(cond)
 
-    expr = sympy.simplify(expr)
+    # Simplification is only cosmetic. Keep the original expression if sympy fails
+    # to simplify it or turns it into something that is no longer a Piecewise
+    # ending with a default (True) branch, which is what the printers expect.
+    try:
+        simplified = sympy.simplify(expr)
+    except Exception:
+        simplified = expr
+    if (
+        isinstance(simplified, sympy.Piecewise)
+        and simplified.args[-1].cond == sympy.true
+        and not simplified.has(sympy.Min, sympy.Max, ITE, sympy.oo, -sympy.oo, sympy.zoo, sympy.nan)
+    ):
+        # (sympy can also introduce Min, Max, ITE or infinities in the conditions,
+        # which not all printers and none of the other tools understand)
+        expr = simplified
 
     exprs = [printer._print(arg.expr) for arg in expr.args]
     conds = [print_cond(arg.cond) for arg in expr.args]
